@@ -468,4 +468,28 @@ def run_history(lf: int, texts: list[str], ops: list) -> tuple[list[tuple[Any, d
                     break
             if fails:
                 break
+    # ---- C07: a token that sits in ANOTHER store is never accepted, even at the same (block, index) coordinates
+    if not fails and impl.store is not None and len(ref) >= 1:
+        other = ts_lib.TokenStore.from_tokens([ts_lib.Token(impl.toks[t].raw_text) for t in ref])
+        olist = list(other)
+        k = (len(ref) * 7 + len(ops)) % len(ref)
+        a_tok, b_tok = impl.toks[ref[k]], olist[k]
+        before_a, before_b = list(impl.store), list(other)
+        for how in ('replace', 'splice'):
+            try:
+                if how == 'replace':
+                    impl.store.replace(a_tok, b_tok)
+                else:
+                    impl.store.splice([b_tok], a_tok, a_tok)
+                refused = False
+            except ValueError:
+                refused = True
+            after_a, after_b = list(impl.store), list(other)
+            if (not refused or len(after_a) != len(before_a) or any(x is not y for x, y in zip(after_a, before_a))
+                    or len(after_b) != len(before_b) or any(x is not y for x, y in zip(after_b, before_b))):
+                fails.append({'sig': 'C07:foreign-store-token-accepted',
+                              'what': f'{how} of token #{k} by the token at the same position of another store was '
+                                      f'{"accepted" if not refused else "refused but changed a store"}',
+                              'where': {'lf': lf, 'texts': texts, 'ops': ops, 'step': len(ops)}})
+                break
     return steps, fails
